@@ -6425,7 +6425,8 @@ mod live {
     /// After the parallel phase, with nothing else running: scenarios of every suspected signature
     /// are re-run alone on fresh cells. A signature that shows again twice is a violation for every
     /// scenario that raised it; otherwise its misses are inconclusive.
-    fn confirm_suspects(rep: &mut Report) {
+    fn confirm_suspects(rep: &mut Report, allowance: std::time::Duration) {
+        let isolation_started = Instant::now();
         let all: Vec<(Spec, String, String, Value)> = std::mem::take(&mut *SUSPECTS.lock().unwrap_or_else(|e| e.into_inner()));
         if all.is_empty() {
             return;
@@ -6444,7 +6445,15 @@ mod live {
             // same connection, the same frames in the same states). Two re-runs must show it again.
             let specs: Vec<&Spec> = all.iter().filter(|s| &s.1 == sig).map(|s| &s.0).take(6).collect();
             let mut hits = 0;
+            let mut misses = 0;
             for spec in specs.iter().cycle().take(6).copied() {
+                // the isolation phase has its own wall-clock allowance (a clock only ever turns a
+                // candidate into "inconclusive", never into a verdict); and two hits out of six
+                // are out of reach after five misses, unlikely after three in a row from the start
+                if isolation_started.elapsed() > allowance || misses >= 5 || (hits == 0 && misses >= 3) {
+                    rep.obs("b.isolated_reruns_cut_short", 1);
+                    break;
+                }
                 let mut iso = match Cell::start(1_000_000 + spec.cell) {
                     Ok(c) => c,
                     Err(e) => {
@@ -6489,6 +6498,8 @@ mod live {
                     if hits == 2 {
                         break;
                     }
+                } else {
+                    misses += 1;
                 }
             }
             if hits == 2 {
@@ -6690,7 +6701,7 @@ mod live {
                     }
                 }
             }
-            confirm_suspects(rep);
+            confirm_suspects(rep, std::time::Duration::from_secs(ctx.opt_u64("b_isolation_s", ctx.tier.pick(100, 600))));
             return;
         }
         for k in [
@@ -6735,7 +6746,7 @@ mod live {
         if let Some(c) = ctx.opt("b_cell").and_then(|s| s.parse::<u64>().ok()) {
             // debugging aid: one cell (and with b_j one scenario of it)
             run_cell(ctx, ctx.seed, c, per_cell, only.as_deref(), rep);
-            confirm_suspects(rep);
+            confirm_suspects(rep, std::time::Duration::from_secs(ctx.opt_u64("b_isolation_s", ctx.tier.pick(100, 600))));
             return;
         }
         par_cases_named(ctx, rep, cells, "c15-live", |i, r| {
@@ -6745,6 +6756,6 @@ mod live {
             };
             run_cell(ctx, ctx.seed, i, per_cell, only.as_deref(), r)
         });
-        confirm_suspects(rep);
+        confirm_suspects(rep, std::time::Duration::from_secs(ctx.opt_u64("b_isolation_s", ctx.tier.pick(100, 600))));
     }
 }
